@@ -491,6 +491,34 @@ pub fn generate(seed: u64, n: usize, thorough: bool, corpus: Option<&str>) -> Ve
         push(format!("min {}\ns.t.\n    {}\ndefine\n    {}\n", obj, cons, dom), "escaped-names", &mut cases);
     }
 
+    // --- explicit `range(from, to, flag)` calls in ITERATOR position whose flag is no literal (a `where` constant, an
+    //     expression over constants) and evaluates to true: the `a..b` sugar is only for a literal flag, the call must be
+    //     kept, otherwise every iteration loses its last element.  Own Rng, fixed-size block (32 programs).
+    {
+        let mut rr = Rng::new(seed ^ 0x7a9e_12c3);
+        for k in 0..32 {
+            let flags_true = ["closed", "not open", "closed and not open", "closed or open", "not (open or open)", "closed iff closed",
+                              "open implies closed", "closed xor open", "closed and closed", "not (not closed)", "not open and closed", "closed and true"];
+            let flags_false = ["open", "not closed", "closed and open", "open xor open"];
+            let f1 = *rr.pick(&flags_true);
+            let f2 = *rr.pick(&flags_true);
+            let f3 = if rr.chance(1, 4) { *rr.pick(&flags_false) } else { *rr.pick(&flags_true) };
+            let hi = *rr.pick(&["n", "2", "len(v)", "n + 1", "(n - 1) * 2"]);
+            let lo = *rr.pick(&["0", "1", "n - 2", "0 + 1"]);
+            let t = match k % 4 {
+                0 => format!("min sum(i in range({}, {}, {})) {{ x_i }}\ns.t.\n    x_i >= i for i in range({}, {}, {})\nwhere\n    let n = 3\n    let v = [4, 5, 6]\n    let closed = true\n    let open = false\ndefine\n    x_i as Real for i in range(0, 9, {})\n",
+                             lo, hi, f1, lo, hi, f2, f3),
+                1 => format!("max y\ns.t.\n    y <= sum(i in range({}, {}, {}), j in 0..2) {{ i + j }}\n    c_i: y <= 10 + i for i in range(0, n, {})\nwhere\n    let n = 3\n    let v = [4, 5, 6]\n    let closed = true\n    let open = false\ndefine\n    y as Real\n",
+                             lo, hi, f1, f2),
+                2 => format!("min sum(i in 0..2) {{ sum(j in range(i, {}, {})) {{ z_i_j }} }}\ns.t.\n    z_i_j >= 1 for i in 0..2, j in range(i, {}, {})\nwhere\n    let n = 3\n    let v = [4, 5, 6]\n    let closed = true\n    let open = false\ndefine\n    z_i_j as NonNegativeReal for i in 0..2, j in range(i, {}, {})\n",
+                             hi, f1, hi, f1, hi, f1),
+                _ => format!("min y + len(range({}, {}, {}))\ns.t.\n    y >= prod(i in range(1, {}, {})) {{ i }}\n    y >= max {{ sum(i in range(0, 2, {})) {{ i }}, 0 }}\nwhere\n    let n = 3\n    let v = [4, 5, 6]\n    let closed = true\n    let open = false\ndefine\n    y as Real\n",
+                             lo, hi, f3, hi, f1, f2),
+            };
+            push(t, "range-flag-expression", &mut cases);
+        }
+    }
+
     // --- MALFORMED programs, by class: every error of the AST builders at every position of a program, pairs of errors
     //     (which one is reported first), and texts the grammar refuses; parsed by the implementation and by the parser
     //     model, the CLASS of the rejection is compared (tags `program-rejected:<class>`)
